@@ -133,3 +133,65 @@ def _setup(flavour):
 
 REG.contract("dpapi_ng._rpc._client.create_rpc_connection", props=["C17"], note="verified; its summary (events) is what the conversation contracts use")(_setup("sync"))
 REG.contract("dpapi_ng._rpc._client.async_create_rpc_connection", props=["C17"], note="verified; its summary (events) is what the conversation contracts use")(_setup("async"))
+
+
+# ------------------------------------------------------------------------------------------------ close()
+@REG.extern_method("socket.shutdown")
+def _shutdown(I, ref, args, kw):
+    """may fail with OSError when the peer already closed the connection"""
+    I.ctx.event("sock_shutdown", sock=ref, how=args[0] if args else None)
+    if I.branch(z3.Bool("shutdown_fails!%d" % len(I.ctx.taken))):
+        I.raise_("OSError")
+    return None
+
+
+@REG.extern_method("socket.close")
+def _sock_close(I, ref, args, kw):
+    I.ctx.event("transport_close", transport=ref)
+    return None
+
+
+@REG.extern_method("StreamWriter.close")
+def _writer_close(I, ref, args, kw):
+    I.ctx.event("transport_close", transport=ref)
+    return None
+
+
+@REG.extern_method("StreamWriter.wait_closed")
+def _wait_closed(I, ref, args, kw):
+    I.ctx.event("wait_closed", transport=ref)
+    return Coro(None)
+
+
+def _close(flavour):
+    def spec(c):
+        from .c_rpcclient import async_client, sync_client
+
+        if not c.verifying:
+            cl = c.param("self")
+            c.raises_only(set())
+            c.effect(lambda: c.ctx.event("close", client=cl))
+            c.returns(None)
+            return
+        self_ = c.param("self", sync_client() if flavour == "sync" else async_client())
+        c.raises_only(set())  # a failing shutdown (peer already gone) must not keep the transport open or escape
+
+        def ok(r):
+            cl = [d for k, d in c.ctx.trace if k == "transport_close"]
+            want = self_.fields["_sock"] if flavour == "sync" else self_.fields["_writer"]
+            conj = [len(cl) == 1 and cl[0]["transport"] is want]
+            if flavour == "sync":
+                sh = [d for k, d in c.ctx.trace if k == "sock_shutdown"]
+                conj.append(len(sh) == 1 and sh[0]["sock"] is want and sh[0]["how"] == 2)  # SHUT_RDWR
+            else:
+                wc = [d for k, d in c.ctx.trace if k == "wait_closed"]
+                conj.append(len(wc) == 1 and wc[0]["transport"] is want)
+            return conj
+
+        c.ensures("the-transport-is-closed-exactly-once-on-every-path", ok)
+
+    return spec
+
+
+REG.contract("dpapi_ng._rpc._client.SyncRpcClient.close", props=["C17"], note="verified (try/except around shutdown); its summary is the 'close' event")(_close("sync"))
+REG.contract("dpapi_ng._rpc._client.AsyncRpcClient.close", props=["C17"], note="verified; its summary is the 'close' event")(_close("async"))
